@@ -48,7 +48,8 @@ let show_wakes (w : nat list) : string =
   let tbl = Hashtbl.create 8 in
   List.iter (fun k -> let k = n2i k in Hashtbl.replace tbl k (1 + (try Hashtbl.find tbl k with Not_found -> 0))) w;
   let ks = List.sort compare (Hashtbl.fold (fun k _ acc -> k :: acc) tbl []) in
-  if ks = [] then "" else " w" ^ String.concat "," (List.map (fun k -> Printf.sprintf "%dx%d" k (Hashtbl.find tbl k)) ks)
+  (* as a set: how often a waker is woken is not part of the property *)
+  if ks = [] then "" else " w" ^ String.concat "," (List.map (fun k -> Printf.sprintf "%d" k) ks)
 
 let run_case (case : string) : string =
   let head, evs =
@@ -119,7 +120,7 @@ let run_case (case : string) : string =
         let end_bad = spec_bad && (name = "upgrade" || (name = "poll" && (expect_text = "N" || text = "N"))) in
         let wakes_text = (match !woken_objs with
             | Some wo when wo <> [] ->
-              let l = List.sort compare (List.map (fun (k, i) -> (n2i k, n2i i)) wo) in
+              let l = List.sort_uniq compare (List.map (fun (k, i) -> (n2i k, n2i i)) wo) in
               " w" ^ String.concat "," (List.map (fun (k, i) -> Printf.sprintf "%d:%d" k i) l)
             | Some _ -> ""
             | None -> show_wakes w) in
